@@ -136,7 +136,9 @@ Section Sim.
                            exists k, In (cn, k) opts /\ pend_rel st (m_det m) cn k iv;
     r_ukeys : map fst (m_unsaved st) = map fst (s_pend (m_st m));
     r_nodup : NoDup (map fst (m_unsaved st));
-    r_clean : m_f1 m = false /\ m_f2 m = false /\ m_f3 m = false
+    r_clean : m_f1 m = false /\ m_f3 m = false;
+    (* list_parsers: the options whose view is a tracked list *)
+    r_listp : forall cn k, In (cn, k) opts -> mem_bytes cn (m_listp st) = is_list_kind k
   }.
 
   (* ---- name resolution under the relation ---- *)
@@ -295,8 +297,8 @@ Section Sim.
       { destruct iv as [s|l]; [destruct Hag as [a [Ha Ht]]; exists (PAtom a); eauto|exists (PList l); auto]. }
       rewrite Hv1 in H. cbn [bind] in H. inversion H. subst st' ob. clear H.
       split; [reflexivity|].
-      destruct R as [R1 R2 R3 R4 R5 R6 R7 R9 R8].
-      constructor; cbn [m_st m_det m_f1 m_f2 m_f3 s_store s_pend with_unsaved m_parsers m_config m_defaults m_unsaved];
+      destruct R as [R1 R2 R3 R4 R5 R6 R7 R9 R8 R10].
+      constructor; cbn [m_st m_det m_f1 m_f3 s_store s_pend with_unsaved m_parsers m_config m_defaults m_unsaved];
         try assumption.
       + (* sync *)
         intros cn' k' Hin' Hp. destruct (list_eq_dec ascii_dec cn cn') as [E|E].
@@ -335,7 +337,7 @@ Section Sim.
     - (* refused *)
       destruct Hag as [e He]. rewrite He in H. cbn [bind] in H. inversion H. subst st' ob. clear H.
       split; [reflexivity|].
-      destruct R as [R1 R2 R3 R4 R5 R6 R7 R9 R8]. constructor; cbn [m_st m_det m_f1 m_f2 m_f3]; assumption.
+      destruct R as [R1 R2 R3 R4 R5 R6 R7 R9 R8 R10]. constructor; cbn [m_st m_det m_f1 m_f3]; assumption.
   Qed.
 
   (* ---- Python list operations keep a per-element property ---- *)
@@ -436,39 +438,49 @@ Section Sim.
       now rewrite map_atom_text_AStr.
   Qed.
 
+  Lemma find_real_name_with_config st cn v n :
+    dmem cn (m_config st) = true ->
+    find_real_name (with_config st (dset cn v (m_config st))) n = find_real_name st n.
+  Proof. intros H. unfold find_real_name. cbn [with_config m_parsers m_config]. now rewrite keys_dset_mem. Qed.
+
   Lemma sim_listop st m name lo st' ob :
     Rel st m -> op_ok opts (OpListOp name lo) = true ->
-    m_f2 (mon_step opts defaults m (OpListOp name lo)) = false ->
     m_f3 (mon_step opts defaults m (OpListOp name lo)) = false ->
     m_step names st (OpListOp name lo) = Some (st', ob) -> step_ok st m (OpListOp name lo) st' ob.
   Proof.
-    intros R Hok Hf2 Hf3 H. cbn [op_ok] in Hok. destruct (dfind_ci name opts) as [[cn k]|] eqn:Hf; [|discriminate].
+    intros R Hok Hf3 H. cbn [op_ok] in Hok. destruct (dfind_ci name opts) as [[cn k]|] eqn:Hf; [|discriminate].
     apply andb_true_iff in Hok as [Hlk Hlop].
     destruct (dfind_ci_In _ _ _ _ Hf) as [Hin Hci].
-    destruct (r_clean _ _ R) as [C1 [C2 C3]].
-    cbn [mon_step] in Hf2, Hf3. rewrite Hf in Hf2, Hf3. cbn [m_f2 m_f3] in Hf2, Hf3.
-    rewrite C3 in Hf3. cbn [orb] in Hf3. rewrite C2 in Hf2. cbn [orb] in Hf2.
+    destruct (r_clean _ _ R) as [C1 C3].
+    cbn [mon_step] in Hf3. rewrite Hf in Hf3. cbn [m_f3] in Hf3.
+    rewrite C3 in Hf3. cbn [orb] in Hf3.
     destruct (listop_target _ _ _ _ R Hin Hlk Hf3) as [L [Hc [Hcur [HfL Hcase]]]].
-    rewrite Hcur in Hf2.
     (* the model side *)
     destruct (getattr_opt _ _ _ _ _ R Hf) as [g [Hg [_ [Hgc Hgd]]]].
     assert (g = GConfig (CList true L)) as ->.
     { destruct g as [v|d]; [rewrite (Hgc v eq_refl) in Hc; now inversion Hc|rewrite (Hgd d eq_refl) in Hc; discriminate]. }
     assert (find_real_name st cn = cn) as Hrn2 by (eapply find_real_name_canon; eassumption).
+    assert (dmem cn (m_config st) = true) as Hdc by (unfold dmem; now rewrite Hc).
     cbn [m_step] in H. unfold m_listop in H. rewrite Hg in H.
-    assert (negb on_modify_before_op = false) as Hom by reflexivity. rewrite Hom, wrapped_all in H. cbn [andb] in H.
-    unfold mark_unsaved in H. rewrite Hrn2, beqb_refl in H. cbn [negb] in H.
-    assert (dmem cn (m_config st) = true) as Hdc by (unfold dmem; now rewrite Hc). rewrite Hdc in H.
+    change on_modify_before_op with false in H. cbv iota in H.
     unfold step_ok. cbn [spec_check mon_step]. unfold spec_next. rewrite Hf, Hcur.
-    destruct R as [R1 R2 R3 R4 R5 R6 R7 R9 R8].
+    destruct R as [R1 R2 R3 R4 R5 R6 R7 R9 R8 R10].
+    destruct (py_list_op lo L) as [L'|e] eqn:Eop.
+    2:{ (* the operation raises: nothing changes *)
+      inversion H. subst st' ob. clear H. split; [reflexivity|].
+      constructor; cbn [m_st m_det m_f1 m_f3]; try assumption.
+      rewrite C1, C3, Hf3. auto. }
+    cbv zeta in H. rewrite wrapped_all in H. cbn [andb] in H.
+    unfold mark_unsaved in H. rewrite (find_real_name_with_config st cn _ cn Hdc), Hrn2, beqb_refl in H.
+    cbn [negb with_config m_config m_unsaved] in H.
+    assert (dmem cn (dset cn (CList true L') (m_config st)) = true) as Hdc' by (unfold dmem; now rewrite dget_dset_same).
+    rewrite Hdc' in H.
     destruct Hcase as [[Hp Hu]|[Hp Hu]].
     - (* nothing pending for cn *)
       assert (dmem cn (m_unsaved st) = false) as Hdu by (apply dmem_false_dget; assumption).
-      assert (dmem cn (s_pend (m_st m)) = false) as Hdp by (apply dmem_false_dget; assumption).
-      rewrite Hdu in H. cbn [andb negb bind] in H. rewrite Hdp in Hf2. cbn [negb] in Hf2. rewrite andb_true_r in Hf2.
-      destruct (py_list_op lo L) as [L'|e] eqn:Eop; [|discriminate Hf2].
+      rewrite Hdu in H. cbn [andb negb bind] in H.
       inversion H. subst st' ob. clear H. split; [reflexivity|].
-      constructor; cbn [m_st m_det m_f1 m_f2 m_f3 s_store s_pend with_unsaved with_config m_parsers m_config m_defaults m_unsaved];
+      constructor; cbn [m_st m_det m_f1 m_f3 s_store s_pend with_unsaved with_config m_parsers m_config m_defaults m_unsaved];
         try assumption.
       + intros cn' k' Hin'. apply dmem_dset_mono. eapply R3; eassumption.
       + intros cn' k' Hin' Hp'. destruct (list_eq_dec ascii_dec cn cn') as [E|E].
@@ -486,32 +498,28 @@ Section Sim.
             cbn [with_unsaved with_config m_unsaved m_config]; [now apply dget_dset_other|now apply dget_dset_other|reflexivity].
       + now apply keys_dset_both.
       + now apply NoDup_keys_dset.
-      + rewrite C1, C2, C3, Hf3. auto.
+      + rewrite C1, C3, Hf3. auto.
     - (* cn is pending as the very list the read returns *)
       assert (dmem cn (m_unsaved st) = true) as Hdu by (unfold dmem; now rewrite Hu).
       rewrite Hdu in H. cbn [andb negb bind] in H.
-      destruct (py_list_op lo L) as [L'|e] eqn:Eop.
-      + inversion H. subst st' ob. clear H. split; [reflexivity|].
-        constructor; cbn [m_st m_det m_f1 m_f2 m_f3 s_store s_pend with_unsaved with_config m_parsers m_config m_defaults m_unsaved];
-          try assumption.
-        * intros cn' k' Hin'. apply dmem_dset_mono. eapply R3; eassumption.
-        * intros cn' k' Hin' Hp'. destruct (list_eq_dec ascii_dec cn cn') as [E|E].
-          -- subst cn'. rewrite dget_dset_same in Hp'. discriminate.
-          -- rewrite dget_dset_other in Hp' by assumption. destruct (R5 _ _ Hin' Hp') as [Hu' Hs'].
-             split; [assumption|].
-             eapply synced_frame; [| |exact Hs']; cbn [m_config m_defaults]; [now apply dget_dset_other|reflexivity].
-        * intros cn' iv' Hp'. destruct (list_eq_dec ascii_dec cn cn') as [E|E].
-          -- subst cn'. rewrite dget_dset_same in Hp'. inversion Hp'. subst iv'. exists k. split; [assumption|].
-             cbn [pend_rel with_unsaved with_config m_unsaved m_config]. split; [assumption|]. split.
-             ++ eapply py_list_op_forall; [apply lop_ok_atoms; eassumption|eassumption|eassumption].
-             ++ left. rewrite dget_dset_same. auto.
-          -- rewrite dget_dset_other in Hp' by assumption. destruct (R6 _ _ Hp') as [k' [Hin' Hpr]].
-             exists k'. split; [assumption|]. eapply pend_rel_frame; [exact E| | | |exact Hpr];
-               cbn [with_unsaved with_config m_unsaved m_config]; [reflexivity|now apply dget_dset_other|reflexivity].
-        * rewrite R7. symmetry. apply keys_dset_mem. unfold dmem. now rewrite Hp.
-        * rewrite C1, C2, C3, Hf3. auto.
-      + inversion H. subst st' ob. clear H. split; [reflexivity|].
-        constructor; cbn [m_st m_det m_f1 m_f2 m_f3]; try assumption.
-        rewrite C1, C2, C3, Hf3. assert (dmem cn (s_pend (m_st m)) = true) as -> by (unfold dmem; now rewrite Hp). auto.
+      inversion H. subst st' ob. clear H. split; [reflexivity|].
+      constructor; cbn [m_st m_det m_f1 m_f3 s_store s_pend with_unsaved with_config m_parsers m_config m_defaults m_unsaved];
+        try assumption.
+      + intros cn' k' Hin'. apply dmem_dset_mono. eapply R3; eassumption.
+      + intros cn' k' Hin' Hp'. destruct (list_eq_dec ascii_dec cn cn') as [E|E].
+        * subst cn'. rewrite dget_dset_same in Hp'. discriminate.
+        * rewrite dget_dset_other in Hp' by assumption. destruct (R5 _ _ Hin' Hp') as [Hu' Hs'].
+          split; [assumption|].
+          eapply synced_frame; [| |exact Hs']; cbn [m_config m_defaults]; [now apply dget_dset_other|reflexivity].
+      + intros cn' iv' Hp'. destruct (list_eq_dec ascii_dec cn cn') as [E|E].
+        * subst cn'. rewrite dget_dset_same in Hp'. inversion Hp'. subst iv'. exists k. split; [assumption|].
+          cbn [pend_rel with_unsaved with_config m_unsaved m_config]. split; [assumption|]. split.
+          -- eapply py_list_op_forall; [apply lop_ok_atoms; eassumption|eassumption|eassumption].
+          -- left. rewrite dget_dset_same. auto.
+        * rewrite dget_dset_other in Hp' by assumption. destruct (R6 _ _ Hp') as [k' [Hin' Hpr]].
+          exists k'. split; [assumption|]. eapply pend_rel_frame; [exact E| | | |exact Hpr];
+            cbn [with_unsaved with_config m_unsaved m_config]; [reflexivity|now apply dget_dset_other|reflexivity].
+      + rewrite R7. symmetry. apply keys_dset_mem. unfold dmem. now rewrite Hp.
+      + rewrite C1, C3, Hf3. auto.
   Qed.
 End Sim.
